@@ -160,7 +160,57 @@ class Voronoi(Family):
         return res
 
 
+def wrapper_intersect(tier):
+    """Catchment.intersect: the kernel receives the centres of the catchment cells and output vectors of nrows*ncols entries; the
+    returned weight grid places every weight at the row / column of its grid cell (also when whole rows or columns between
+    occupied ones are empty), with the parent row/column bookkeeping and the lower-left corner of the sub-grid"""
+    import numpy as np
+    from hydrodiy.gis import grid as G
+    from engine.contracts import Recorder, patched_module
+    out = []
+    real = G.c_hydrodiy_gis
+    for (nr, nc, cells, weights) in [(3, 3, [0, 8], [0.25, 0.5]), (3, 4, [1, 9, 11], [1.0, 0.5, 0.25]), (4, 4, [5], [2.0]), (3, 3, [0, 2, 6, 8], [1, 2, 3, 4])]:
+        fine = G.Grid('fd', 6, 6, cellsize=1.0, dtype=np.int64)
+        fine.data = np.full((6, 6), 4, dtype=np.int64)
+        ca = G.Catchment('c', fine)
+        ca._idxcells_area = np.array([0, 7, 14], dtype=np.int64)
+        coarse = G.Grid('g', nc, nr, cellsize=2.0, xllcorner=-1.0, yllcorner=3.0)
+
+        def beh_intersect(c, cells=cells, weights=weights):
+            c.raw_args[7][0] = len(cells)
+            c.raw_args[8][:len(cells)] = cells
+            c.raw_args[9][:len(cells)] = weights
+            return 0
+        rec = Recorder({'intersect': beh_intersect, 'cell2coord': lambda c: real.cell2coord(*c.raw_args),
+                        'cell2rowcol': lambda c: real.cell2rowcol(*c.raw_args)})
+        with patched_module(G, 'c_hydrodiy_gis', rec):
+            ag, idx, w = ca.intersect(coarse)
+        c = [c for c in rec.calls if c.name == 'intersect'][0]
+        tag = dict(nrows=nr, ncols=nc, cells=cells)
+        want_xy = np.array([[0.5, 5.5], [1.5, 4.5], [2.5, 3.5]])
+        out.append(('kernel-gets-catchment-cell-centres', np.allclose(c.args[6], want_xy) and float(c.args[5]) == 1.0 and float(c.args[4]) == 2.0, tag))
+        out.append(('output-vectors-sized-nrows*ncols', len(c.args[8]) == nr * nc and len(c.args[9]) == nr * nc, tag))
+        rows, cols = [k // nc for k in cells], [k % nc for k in cells]
+        r0, c0 = min(rows), min(cols)
+        want = np.zeros((max(rows) - r0 + 1, max(cols) - c0 + 1))
+        for k, wt in zip(cells, weights):
+            want[k // nc - r0, k % nc - c0] = wt
+        out.append(('weight-at-matching-row-and-column', ag.data.shape == want.shape and np.allclose(ag.data, want), dict(tag, got=ag.data.tolist())))
+        out.append(('returned-cells-and-weights', list(idx) == cells and np.allclose(w, weights), tag))
+        out.append(('sub-grid-corner', abs(ag.xllcorner - (-1.0 + 2.0 * c0)) < 1e-9 and abs(ag.yllcorner - (3.0 + 2.0 * (nr - 1 - max(rows)))) < 1e-9, tag))
+    return out
+
+
+CONTRACTS = [wrapper_intersect]
+
+
+def contracts_part(tier, seed, workdir):
+    from engine.contracts import run_contracts
+    return run_contracts('C16', 'harness.C16', CONTRACTS, tier)
+
+
 FAMILIES = [Intersect(), Voronoi()]
+PARTS = [contracts_part]
 
 META = dict(
     explanation='bounded symbolic execution of the LLVM IR of c_cell2coord -> c_intersect (composed as Catchment.intersect does) with symbolic distinct '
@@ -169,7 +219,7 @@ META = dict(
                 'independent count-based reference',
     bounds=['intersect: fine grid 2x2 (thorough 3x3, 2x3), coarse grid 1x1, 1x2, 2x2 (thorough + 2x1), cell-size ratio 1-2 (thorough 1-4), 1-2 catchment '
             'cells (thorough 3), origins in [-20,20]', 'voronoi: 2x2 grid with symbolic origin, listed catchment cell tuples of 1-3 cells, 1-2 points (thorough 3) anywhere in [-5,5]^2'],
-    outside=['the numpy scatter of the weights into area_grid and its parent row/column bookkeeping', 'rounding (exact reals)'],
+    outside=['rounding (exact reals)', 'the numpy scatter into area_grid is only exercised by the recorded wrapper scenario (finite configurations)'],
     assumptions=['fine cell size 1, coarse cell size = ratio (scale invariance not separately shown)'],
     stubs=['sqrt(x): order-only model (non-negative, zero iff x = 0, below max(1,x), strictly monotone across the square roots of a path)'],
 )
